@@ -4,9 +4,9 @@ package gvc
 // named obligations with status discharged / refuted, accounted like SMT obligations.
 
 import (
-	"sort"
 	"fmt"
 	"go/types"
+	"sort"
 	"strings"
 
 	"golang.org/x/tools/go/ssa"
